@@ -171,7 +171,8 @@ RAISE_SITES = {
     "thermalUpdatePointers": ("montepy/data_inputs/thermal_scattering.py", "ThermalScatteringLaw.update_pointers"),
     "dataInputUpdatePointers": ("montepy/data_inputs/data_input.py", "DataInputAbstract.update_pointers"),
     "loadDataInputsToObject": ("montepy/mcnp_problem.py", "MCNP_Problem.__load_data_inputs_to_object"),
-    "cellModifierPushMerge": None,  # filled below: push_to_cells / merge / _clear_data of every cell modifier class
+    "cellModifierMerge": None,  # filled below from every cell modifier class
+    "cellModifierPush": None,
     "readData": ("montepy/input_parser/input_syntax_reader.py", "read_data"),
     "readInputInit": ("montepy/input_parser/mcnp_input.py", "ReadInput.__init__"),
     "numberedAppend": ("montepy/numbered_object_collection.py", "NumberedObjectCollection.append"),
@@ -198,24 +199,29 @@ def raise_sites():
             continue
         rel, qual = spec
         out[key] = _raises(_func(_src(rel), qual))
-    names = []
-    for rel, cls in [
-        ("montepy/data_inputs/importance.py", "Importance"),
-        ("montepy/data_inputs/volume.py", "Volume"),
-        ("montepy/data_inputs/universe_input.py", "UniverseInput"),
-        ("montepy/data_inputs/lattice_input.py", "LatticeInput"),
-        ("montepy/data_inputs/fill.py", "Fill"),
-    ]:
-        tree = _src(rel)
-        for meth in ("push_to_cells", "merge", "_clear_data"):
-            try:
-                fn = _func(tree, f"{cls}.{meth}")
-            except RuntimeError:
-                continue
-            for nm in _raises(fn):
-                if nm not in names:
-                    names.append(nm)
-    out["cellModifierPushMerge"] = names
+    for key, meths in (
+        ("cellModifierMerge", ("merge",)),
+        ("cellModifierPush", ("push_to_cells", "_clear_data", "_check_redundant_definitions", "_check_particle_in_problem", "__setitem__")),
+    ):
+        names = []
+        for rel, cls in [
+            ("montepy/data_inputs/cell_modifier.py", "CellModifierInput"),
+            ("montepy/data_inputs/importance.py", "Importance"),
+            ("montepy/data_inputs/volume.py", "Volume"),
+            ("montepy/data_inputs/universe_input.py", "UniverseInput"),
+            ("montepy/data_inputs/lattice_input.py", "LatticeInput"),
+            ("montepy/data_inputs/fill.py", "Fill"),
+        ]:
+            tree = _src(rel)
+            for meth in meths:
+                try:
+                    fn = _func(tree, f"{cls}.{meth}")
+                except RuntimeError:
+                    continue
+                for nm in _raises(fn):
+                    if nm not in names:
+                        names.append(nm)
+        out[key] = names
     return out
 
 
